@@ -141,3 +141,61 @@ example : recvN 2 ⟨encodeAll [[7]] ++ (encode [1, 2, 3]).take 2, [0, 1]⟩ = [
 example : recvN 1 ⟨(encode [1, 2, 3]).take 6, []⟩ = [.closed] := by decide +kernel
 
 end PwVerif.C10
+
+namespace PwVerif.C10
+open PwVerif.Framing
+
+/-- `sendall` over a transport that writes short puts exactly the data on the wire, whatever the short writes -/
+theorem sendAll_all : ∀ (fuel : Nat) (data : List Byte) (caps : List Nat) (wire : List Byte), data.length ≤ fuel →
+    (sendAll fuel data caps wire).1 = wire ++ data := by
+  intro fuel
+  induction fuel with
+  | zero =>
+    intro data caps wire h
+    cases data with
+    | nil => simp [sendAll]
+    | cons b bs => simp at h
+  | succ fuel ih =>
+    intro data caps wire h
+    cases data with
+    | nil => simp [sendAll]
+    | cons b bs =>
+      simp only [sendAll]
+      have hk : ∀ k, 1 ≤ k → ((b :: bs).drop k).length ≤ fuel := by
+        intro k hk
+        simp only [List.length_drop, List.length_cons] at h ⊢
+        omega
+      cases caps with
+      | nil =>
+        simp only
+        rw [ih _ _ _ (hk _ (by simp))]
+        simp
+      | cons c cs =>
+        simp only
+        rw [ih _ _ _ (hk _ (by simp))]
+        rw [List.append_assoc, List.take_append_drop]
+
+theorem sendMsgs_wire (msgs : List (List Byte)) (caps : List Nat) (wire : List Byte) :
+    sendMsgs msgs caps wire = wire ++ encodeAll msgs := by
+  induction msgs generalizing caps wire with
+  | nil => simp [sendMsgs, encodeAll]
+  | cons m ms ih =>
+    simp only [sendMsgs, encodeAll]
+    have h := sendAll_all (encode m).length (encode m) caps wire (Nat.le_refl _)
+    generalize sendAll (encode m).length (encode m) caps wire = r at h
+    obtain ⟨w', c'⟩ := r
+    simp only at h ⊢
+    rw [ih, h, List.append_assoc]
+
+/-- **C10 end to end.** Whatever short writes the sender's transport makes (`caps`) and however the receiver's
+    transport segments the stream (`cuts`), the receiver reads back exactly the messages that were sent, then sees
+    the connection closed. -/
+theorem C10_end_to_end (msgs : List (List Byte)) (caps cuts : List Nat)
+    (hm : ∀ m ∈ msgs, m.length < 4294967296) :
+    recvN (msgs.length + 1) ⟨sendMsgs msgs caps [], cuts⟩ = msgs.map Recv.msg ++ [Recv.closed] := by
+  rw [sendMsgs_wire]
+  simpa using C10_roundtrip msgs cuts hm
+
+example : sendMsgs [[1, 2, 3], []] [0, 0, 1] [] = [0, 0, 0, 3, 1, 2, 3, 0, 0, 0, 0] := by decide
+
+end PwVerif.C10
